@@ -102,6 +102,21 @@ pub fn batch_cases(seed: u64, n: usize) -> Vec<Case> {
             v.push(sib);
         }
     }
+    // a stateful decoder between calls: well-formed ISO-2022-JP, a text broken inside a shifted run, the
+    // well-formed one again – the same bytes and settings must give the same answer both times
+    {
+        let jp = "\u{3053}\u{3093}\u{306b}\u{3061}\u{306f}\u{4e16}\u{754c}\u{3001}\u{3053}\u{308c}\u{306f}\u{30c6}\u{30b9}\u{30c8}\u{3067}\u{3059}\u{3002}";
+        let good = enc_bytes_lossy(&format!("Subject: test mail\nFrom: someone\n\n{} {} {}\n", jp, jp, jp), "iso-2022-jp");
+        let mut broken = b"Header: x\n\x1b$B$3$l$O".to_vec();
+        broken.extend_from_slice(b"\xe9 rest of the line\n");
+        if !good.is_empty() {
+            for sett in [Sett::default(), { let mut s = Sett::default(); s.incl = vec!["iso-2022-jp".into()]; s }] {
+                v.push(Case { bytes: good.clone(), sett: sett.clone(), tag: "stateful:good".into() });
+                v.push(Case { bytes: broken.clone(), sett: sett.clone(), tag: "stateful:broken".into() });
+                v.push(Case { bytes: good.clone(), sett: sett.clone(), tag: "stateful:good-again".into() });
+            }
+        }
+    }
     v
 }
 
